@@ -215,6 +215,7 @@ func init() {
 			}
 			return false
 		})
+		s += fmt.Sprintf("/-- the format cache holds at most this many formats -/\ndef maxCachedFormats : Nat := %d\n", constInt(parseFile("interp/interp.go"), "maxCachedFormats"))
 		s += "def convLetters : List Nat := " + c09Codes(string(letters)) + "\n"
 		s += "/-- source text of the one-line argument conversions in sprintf -/\n"
 		s += "def convText : List String := " + leanStrList(convs) + "\n"
